@@ -28,6 +28,7 @@ func main() {
 	verbose := flag.Bool("v", false, "print every obligation")
 	noEvidence := flag.Bool("no-evidence", false, "do not write evidence (self-test runs on scratch copies)")
 	manifest := flag.Bool("manifest", false, "regenerate MANIFEST.json from the registry and exit")
+	writeAnchors := flag.Bool("write-anchors", false, "record the signatures/types of the tree's package-level members in anchors.json and exit")
 	replay := flag.String("replay", "", "replay file written by an earlier run: re-runs that obligation's rule on the current tree")
 	flag.Parse()
 	if t := os.Getenv("VERIF_TIER"); t != "" && *tier == "" {
@@ -89,6 +90,20 @@ func main() {
 		if props.NeedsControls(id) && fix == nil && lerrFix == nil && lerr == nil {
 			fix, lerrFix = load.Load(filepath.Join(vdir, "fixtures"), "go.lstv.dev/utilfix")
 		}
+	}
+	props.LoadAnchors(vdir)
+	if *writeAnchors {
+		if lerr != nil {
+			fmt.Println("BROKEN", lerr)
+			os.Exit(2)
+		}
+		env := &props.Env{P: p, C: &flow.Ctx{Prog: p.SSA, ModPath: props.ModPath}, S: &core.Sink{}}
+		if err := props.WriteAnchors(env, vdir); err != nil {
+			fmt.Println("BROKEN", err)
+			os.Exit(2)
+		}
+		fmt.Println("anchors.json written")
+		return
 	}
 	loadS := time.Since(start).Seconds()
 	exit := 0
